@@ -18,6 +18,7 @@ mod c18;
 mod common;
 mod extract;
 mod gramsweep;
+mod names;
 mod pda;
 mod pspace;
 mod reallayer;
@@ -79,6 +80,17 @@ fn main() {
         }
         Some("c07-probe") => c07::child_probe(args.get(2).and_then(|s| s.parse().ok()).unwrap_or(usize::MAX)),
         Some("c07-one") => c07::child_one(args.get(2).map(|s| s.as_str()).unwrap_or("")),
+        Some("scope-size") => {
+            // tooling: kiki-mc scope-size n t p k [sym]
+            let v: Vec<usize> = args[2..6].iter().map(|s| s.parse().unwrap()).collect();
+            let sc = scopes::Scope { n: v[0], t: v[1], p: v[2], k: v[3], symmetry: args.get(6).is_some(), only_cyclic: false };
+            let rhss = scopes::all_rhs(sc.n, sc.t, sc.k);
+            let mut n = 0u64;
+            for unit in scopes::work_units(&sc, u128::MAX) {
+                scopes::for_each_completion(&sc, &rhss, &unit, &mut |_| n += 1);
+            }
+            println!("{} raw={} enumerated={}", sc.name(), scopes::scope_size(&sc), n);
+        }
         Some("free-run") => {
             println!("{}", c14::free_run_digest());
         }
